@@ -8,23 +8,23 @@ props = [json.loads(l) for l in open(os.path.join(root, 'properties.jsonl'))]
 T = {
  # id: (engine, category, level text, level note, technique)
  'C01': ('gcmodel', 'exploration',
-         'Generated stateful histories (all call kinds of the statement, every N in 1..=16, capacities 2..256) with a model-independent invariant over the call history evaluated after every call. Exploration only: held on everything generated; the evidence file says how many histories, how many non-trivial, and shows samples.',
+         'Generated stateful histories (all call kinds of the statement, every N in 1..=16, capacities 2..256) with a model-independent invariant over the call history evaluated after every call. Exploration only: held on everything generated; the evidence file says how many histories, how many non-trivial, and shows samples. Plus bounded-exhaustive dimension sweeps (capacity, id, alpha index, byte values, datum length, group shape, edge count, label character) on a fixed scenario under the same oracle.',
          'trusted: interpreter + history bookkeeping (harness/src/interp.rs Hist), proptest generators; bounds: <=80 generated calls + drain epilogue per history',
          'stateful property-based testing with proptest; oracle = invariant over the call history; failures shrunk (value tree + ddmin) to a JSON replay'),
  'C02': ('gcmodel', 'exploration',
-         'Generated stateful histories compared after every call with an independent executable reference model (alive set), including a drain epilogue that turns latent counter drift into an observable difference and probes every free group slot. Exploration only.',
+         'Generated stateful histories compared after every call with an independent executable reference model (alive set), including a drain epilogue that turns latent counter drift into an observable difference and probes every free group slot. Exploration only. Plus bounded-exhaustive dimension sweeps (capacity, id, alpha index, byte values, datum length, group shape, edge count, label character) on a fixed scenario under the same oracle.',
          'trusted: reference model harness/src/model.rs; bounds as C01; builds with debug assertions and overflow checks',
          'model-based stateful property testing (proptest histories vs reference model), shrunk to a JSON replay'),
  'C03': ('gcmodel', 'exploration',
-         'Generated histories; after every call every present vertex is queried (kids, kid per bound label and probe labels, data marker) and every data() result is compared with the reference model. Exploration only.',
+         'Generated histories; after every call every present vertex is queried (kids, kid per bound label and probe labels, data marker) and every data() result is compared with the reference model. Exploration only. Plus bounded-exhaustive dimension sweeps (capacity, id, alpha index, byte values, datum length, group shape, edge count, label character) on a fixed scenario under the same oracle.',
          'trusted: reference model; labels from a fixed pool of all three variants, built directly and through from_str; data lengths 0..40',
          'model-based stateful property testing, per-call full-observation oracle'),
  'C04': ('gcmodel', 'exploration',
-         'Generated re-add-heavy histories; blankness oracle after add on absent ids (kid() probed for every label the collected vertex had, data marker, later reads), and a metamorphic relation (deleting every add of a present id leaves the whole observation trace unchanged). Exploration only.',
+         'Generated re-add-heavy histories; blankness oracle after add on absent ids (kid() probed for every label the collected vertex had, data marker, later reads), and a metamorphic relation (deleting every add of a present id leaves the whole observation trace unchanged). Exploration only. Plus bounded-exhaustive dimension sweeps (capacity, id, alpha index, byte values, datum length, group shape, edge count, label character) on a fixed scenario under the same oracle.',
          'trusted: reference model for the absent/present judgement; the metamorphic part compares the implementation with itself',
          'stateful property testing with a metamorphic oracle (delete the re-add) plus reference model'),
  'C05': ('gcmodel', 'exploration',
-         'Generated allocator-heavy histories (next_id, explicit adds around the allocator, collections, clone, merge, script variables); freshness invariant over the history. Exploration only.',
+         'Generated allocator-heavy histories (next_id, explicit adds around the allocator, collections, clone, merge, script variables); freshness invariant over the history. Exploration only. Plus bounded-exhaustive dimension sweeps (capacity, id, alpha index, byte values, datum length, group shape, edge count, label character) on a fixed scenario under the same oracle.',
          'trusted: history bookkeeping; next_id generated only inside its documented domain (an absent id at or above the allocator position remains)',
          'stateful property testing; oracle = invariant over the history of returned ids'),
  'C06': ('cycles', 'exploration',
@@ -32,19 +32,19 @@ T = {
          'trusted: reference model; bounds: quick 40..300 cycles per history, thorough up to 3000; capacities 8..256',
          'model-based stateful property testing with a structured (cycle/scheduler) generator'),
  'C07': ('asan-seq', 'exploration',
-         'Generated call sequences (in-domain histories ended by exactly one limit overrun that must panic; anything-goes sequences with tolerated panics, incl. a group-exhaustion scenario at large ids and calls of the Hex/Label value-type API) executed inside an AddressSanitizer build with debug assertions; thorough adds a MemorySanitizer build and a coverage-guided libFuzzer+ASan campaign on a byte-level target with the same oracle inside.',
+         'Generated call sequences (in-domain histories ended by exactly one limit overrun that must panic; anything-goes sequences with tolerated panics, incl. a group-exhaustion scenario at large ids and calls of the Hex/Label value-type API) executed inside an AddressSanitizer build with debug assertions; thorough adds a MemorySanitizer build and a coverage-guided libFuzzer+ASan campaign on a byte-level target with the same oracle inside. Plus bounded-exhaustive dimension sweeps (capacity, id, alpha index, byte values, datum length, group shape, edge count, label character) on a fixed scenario under the same oracle.',
          'trusted: the sanitizers; ASan cannot see uninitialised reads (MSan stage in thorough only) nor out-of-bounds accesses that land inside another live allocation; claimed for builds with debug assertions',
          'property-based sequence generation + coverage-guided fuzzing (cargo-fuzz/libFuzzer) under ASan/MSan with the panic-contract oracle in the target'),
  'C08': ('twin', 'exploration',
-         'Differential twin runs: g built by a generated history, g2 = load(save(g)) through a real file; complete observations must agree and a generated continuation plus drain epilogue on both must produce identical traces (results, collections, all query outputs). Exploration only.',
+         'Differential twin runs: g built by a generated history, g2 = load(save(g)) through a real file; complete observations must agree and a generated continuation plus drain epilogue on both must produce identical traces (results, collections, all query outputs). Exploration only. Plus bounded-exhaustive dimension sweeps (capacity, id, alpha index, byte values, datum length, group shape, edge count, label character) on a fixed scenario under the same oracle.',
          'trusted: the interpreter; the comparison is implementation vs implementation; allocator-dependent calls are generated only when the one permitted difference (allocator restart) cannot show',
          'differential (round-trip twin) stateful property testing with proptest-generated histories and continuations'),
  'C09': ('prefixes', 'fault_enumeration',
-         'Every cut point of the image of generated graphs is enumerated (all of them in thorough; all for images <= 4096 bytes in quick) and load() must return Err on each; the complete image must load (control).',
+         'Every cut point of the image of generated graphs is enumerated (all of them in thorough; all for images <= 4096 bytes in quick) and load() must return Err on each; the complete image must load (control). Plus bounded-exhaustive dimension sweeps (capacity, id, alpha index, byte values, datum length, group shape, edge count, label character) on a fixed scenario under the same oracle.',
          'fault model: a crash leaves a byte prefix of the image; load() called with the N used for save()',
          'fault enumeration (every truncation point) over proptest-generated graphs'),
  'C10': ('twin', 'exploration',
-         'Differential twin runs original vs clone (made by clone() or by clone_from() into another store, bigger and with vertices of its own, or older) with identical continuations (incl. next_id and merge), plus an independence check: mutating one copy leaves the complete observation of the other unchanged and the other still drains exactly as the reference model says.',
+         'Differential twin runs original vs clone (made by clone() or by clone_from() into another store, bigger and with vertices of its own, or older) with identical continuations (incl. next_id and merge), plus an independence check: mutating one copy leaves the complete observation of the other unchanged and the other still drains exactly as the reference model says. Plus bounded-exhaustive dimension sweeps (capacity, id, alpha index, byte values, datum length, group shape, edge count, label character) on a fixed scenario under the same oracle.',
          'trusted: the interpreter and, for the independence drain, the reference model',
          'differential twin stateful property testing (original vs clone), metamorphic independence check'),
  'C11': ('treegen', 'exploration',
@@ -56,35 +56,35 @@ T = {
          'trusted: the generator knows which right vertices are unreachable by construction',
          'property-based testing over generated graph pairs; oracle = reachability by construction'),
  'C13': ('digraph', 'exploration',
-         'Generated digraphs (cycles, shared targets, parallel labels, fans with N or N-1 labels on one vertex for N up to 32) and post-collection history graphs; every present start vertex; slice and slice_some under generated predicates compared with an independent BFS on the reference model; source unchanged; non-termination detected by stack overflow / per-case watchdog.',
+         'Generated digraphs (cycles, shared targets, parallel labels, fans with N or N-1 labels on one vertex for N up to 32) and post-collection history graphs; every present start vertex; slice and slice_some under generated predicates compared with an independent BFS on the reference model; source unchanged; non-termination detected by stack overflow / per-case watchdog. Plus bounded-exhaustive dimension sweeps (capacity, id, alpha index, byte values, datum length, group shape, edge count, label character) on a fixed scenario under the same oracle.',
          'trusted: reference model edges, BFS in harness/src/props/digraph.rs; <=14 reachable vertices as the property requires',
          'property-based testing over generated digraphs; oracle = independent reachability computation'),
  'C14': ('scriptgen', 'exploration',
-         'Differential twin: deploy_to(text) vs the direct API calls for generated programs (literal ids and $variables with names up to 14 characters, on empty graphs and on graphs with a generated history incl. dangling edges) under generated legal formatting; single-fault corruptions are classified by an independent strict parser (well-formed / malformed at command k / unspecified) and judged accordingly (Err without panic, prefix applied).',
+         'Differential twin: deploy_to(text) vs the direct API calls for generated programs (literal ids and $variables with names up to 14 characters, on empty graphs and on graphs with a generated history incl. dangling edges) under generated legal formatting; single-fault corruptions are classified by an independent strict parser (well-formed / malformed at command k / unspecified) and judged accordingly (Err without panic, prefix applied). Plus bounded-exhaustive dimension sweeps (capacity, id, alpha index, byte values, datum length, group shape, edge count, label character) on a fixed scenario under the same oracle.',
          'trusted: the strict parser of the documented grammar (harness/src/props/script.rs); unspecified syntax is skipped and counted',
          'grammar-based generation + differential twin (script vs calls) + fault injection classified by an independent parser'),
  'C15': ('hexenum', 'exploration',
-         'Differential against Rust slice semantics: for generated contents, every length 0..=12 in three representations and the complete index/range space up to 14 plus usize::MAX ends; equal result or both panic; single-bit inequality for every bit of lengths 1..=9; exhausted inclusive ranges; long strings up to 65 537 bytes at sampled positions. The index space is exhaustive per content, the contents are sampled.',
+         'Differential against Rust slice semantics: for generated contents, every length 0..=12 in three representations and the complete index/range space up to 14 plus usize::MAX ends; equal result or both panic; single-bit inequality for every bit of lengths 1..=9; exhausted inclusive ranges; long strings up to 65 537 bytes at sampled positions. The index space is exhaustive per content, the contents are sampled. Plus a bounded-exhaustive sweep of every length up to 2100 / 9000.',
          'trusted: Rust slice indexing as the oracle; bounds: lengths <=12, indices <=14 and the two largest usize',
          'bounded-exhaustive enumeration of the index space over proptest-generated contents; differential oracle (byte slice)'),
  'C16': ('concatenum', 'exploration',
-         'For generated contents every pair of lengths 0..=12 x 0..=12 in 3x3 representations is concatenated and compared with Vec concatenation; operands must stay unchanged. One open known finding (exact signature) is reported as KNOWN-FINDING and excluded so that the search continues.',
+         'For generated contents every pair of lengths 0..=12 x 0..=12 in 3x3 representations is concatenated and compared with Vec concatenation; operands must stay unchanged. One open known finding (exact signature) is reported as KNOWN-FINDING and excluded so that the search continues. Plus a bounded-exhaustive sweep of operand length pairs (square up to 96 / 200, strips up to 4200 / 20000).',
          'trusted: Vec concatenation as the oracle; known_findings.json signature concat.inline_spill_padding',
          'bounded-exhaustive enumeration of the length space over proptest-generated contents; oracle = byte concatenation'),
  'C18': ('digraph', 'exploration',
-         'Generated graphs (digraph builder and histories with collections); XML parsed with sxd-document and DOT with a line grammar, compared with the reference model (node set in ascending order, edges, data); metamorphic rebuild of the same present graph in another way must give byte-identical text; a bounded-exhaustive sweep of datum lengths (0..=9000 quick / 0..=40000 thorough and windows around 64 KiB..1 MiB) through both exporters.',
+         'Generated graphs (digraph builder and histories with collections); XML parsed with sxd-document and DOT with a line grammar, compared with the reference model (node set in ascending order, edges, data); metamorphic rebuild of the same present graph in another way must give byte-identical text; a bounded-exhaustive sweep of datum lengths (0..=9000 quick / 0..=40000 thorough and windows around 64 KiB..1 MiB) through both exporters. Plus bounded-exhaustive dimension sweeps (capacity, id, alpha index, byte values, datum length, group shape, edge count, label character) on a fixed scenario under the same oracle.',
          'trusted: reference model; sxd-document parser; the DOT line grammar of src/dot.rs',
          'property-based testing; parse-back oracle against the reference model + metamorphic rebuild'),
  'C20': ('digraph', 'exploration',
-         'Generated graphs as C13; inspect() parsed by indentation and compared with the reachable edge multiset (exactly once each), v_print and Debug/Display parsed and compared with the reference model; termination by stack overflow detection / per-case watchdog.',
+         'Generated graphs as C13; inspect() parsed by indentation and compared with the reachable edge multiset (exactly once each), v_print and Debug/Display parsed and compared with the reference model; termination by stack overflow detection / per-case watchdog. Plus bounded-exhaustive dimension sweeps (capacity, id, alpha index, byte values, datum length, group shape, edge count, label character) on a fixed scenario under the same oracle.',
          'trusted: reference model; the text parsers in harness/src/props/digraph.rs; what is printed beneath an edge to a collected vertex is not judged',
          'property-based testing over generated digraphs; parse-back oracle against the reference model'),
  'C19': ('multi-config', 'exploration',
-         'The same generated history (incl. slice_some under fixed predicates from every eligible vertex, clone_from into another store) is replayed twice in one process, in another process (sampled) and under a second (N, capacity) configuration; complete observation traces incl. kids() order, next_id results and merge-created ids must be identical.',
+         'The same generated history (incl. slice_some under fixed predicates from every eligible vertex, clone_from into another store) is replayed twice in one process, in another process (sampled) and under a second (N, capacity) configuration; complete observation traces incl. kids() order, next_id results and merge-created ids must be identical. Plus bounded-exhaustive dimension sweeps (capacity, id, alpha index, byte values, datum length, group shape, edge count, label character) on a fixed scenario under the same oracle.',
          'differential: implementation vs itself; histories generated inside the limits of the smaller configuration',
          'differential replay across runs, processes and configurations of proptest-generated histories'),
  'C17': ('labels', 'exploration',
-         'All texts up to length 4 (quick) / 5 (thorough) over a 14-symbol alphabet enumerated completely, longer and arbitrary-unicode texts generated, α indices around every power of ten and two; round trips in both directions, injectivity, rejection, and a graph lookup under parsed vs constructed labels.',
+         'All texts up to length 4 (quick) / 5 (thorough) over a 14-symbol alphabet enumerated completely, longer and arbitrary-unicode texts generated, α indices around every power of ten and two; round trips in both directions, injectivity, rejection, and a graph lookup under parsed vs constructed labels. Plus a sweep over every Unicode scalar value as a label character and every alpha index up to 100000 / 2000000.',
          'trusted: the independent classifier of the documented text grammar (classify_text in harness/src/props/hexlab.rs); unspecified texts are skipped and counted',
          'bounded-exhaustive text enumeration + proptest-generated texts; round-trip / injectivity oracles'),
 }
